@@ -396,7 +396,7 @@ impl Prop for C18 {
         }
     }
     fn nontrivial_rule(&self) -> &'static str {
-        "scenario = 1-4 resources with per-resource scripts of check results (healthy, degraded, unhealthy, unknown, slower than the 20ms timeout, never) over 20-200 intervals of 50ms virtual time, thresholds 1..4, four selection strategies, start() again / stop()+start() / stop() at seeded instants, observers at instants = 2 mod 5 (never sharing an instant with a check start or completion) reading get_status, get_health_details and calling get_healthy/get_usable 2n+1 times; model fed with verdicts in completion order. Non-trivial: at least two observations saw a published (non-unknown) status. Distinct = distinct event-log digest."
+        "scenario = 1-4 resources with per-resource scripts of check results (healthy, degraded, unhealthy, unknown, slower than the 20ms timeout, never; or no timeout at all = Duration::MAX) over 20-200 intervals of 50ms virtual time, thresholds 1..4, four selection strategies, start() again / stop()+start() / stop() at seeded instants, observers at instants = 2 mod 5 (never sharing an instant with a check start or completion) reading get_status, get_health_details and calling get_healthy/get_usable 2n+1 times; model fed with verdicts in completion order. Non-trivial: at least two observations saw a published (non-unknown) status. Distinct = distinct event-log digest."
     }
     fn real_components(&self) -> Vec<&'static str> {
         vec!["tower-resilience-healthcheck (HealthCheckWrapper background task, per-check tasks, HealthCheckedContext counters, SelectionStrategy)", "tokio interval / timeout / spawn / RwLock on the paused clock"]
